@@ -159,6 +159,12 @@ func (c13) Gen(r *sim.Rand, tier string, run uint64) *sim.Scenario {
 				e = s - int64(sim.PickInt(r, 1, 1, 2, 8, 15, 16, 17, 32))
 			}
 			ops = append(ops, sim.Op{K: "dump", N: []int64{s, e}})
+			if e >= s && r.Chance(1, 5) {
+				// the memory behind the window changes without the bus being involved (the owner of
+				// the device writes into it, a counter ticks), then the same window is dumped again
+				ops = append(ops, sim.Op{K: "poke", N: []int64{s + int64(r.Intn(int(e-s)+1)), int64(r.Intn(256))}})
+				ops = append(ops, sim.Op{K: "dump", N: []int64{s, e}})
+			}
 		}
 	}
 	sc.Ops = ops
@@ -440,6 +446,26 @@ func (c13) Exec(sc *sim.Scenario, env *sim.Env) *sim.Violation {
 				env.FaultYield("op")
 				nontrivial = true
 			}
+		case "poke":
+			a := uint32(op.Arg(0)) & 0xFFFFFF
+			own := owner[a>>4]
+			if own < 0 {
+				continue
+			}
+			if useReal[a>>4] {
+				rd := reals[own]
+				switch {
+				case rd.hw:
+					rd.data[a&0xFFFF-0x2000] = byte(op.Arg(1))
+					sim.RecoverLib(func() { rd.mem.Write(a, byte(op.Arg(1))) })
+				case a >= rd.offset && int(a-rd.offset) < len(rd.data):
+					rd.data[a-rd.offset] = byte(op.Arg(1)) // the slice memory.RAM/ROM was made over
+				}
+			} else {
+				devs[own].Poke(a, byte(op.Arg(1)))
+			}
+			st.Probe("device_changed_behind_the_bus")
+			continue
 		case "churn":
 			ws, n, dv := uint32(op.Arg(0))&0xFFFFF0, int(op.Arg(1)), int(op.Arg(2))
 			if n > 140000 {
